@@ -359,6 +359,7 @@ def main(argv=None):
     proof_fail = []       # undischarged obligations: (name, message)
     obligations = []
     discharged = []
+    witness_ok, witness_bad = [], []
     audit_res = {}
     build_out = ""
     # ---- E1 -----------------------------------------------------------------------
@@ -390,6 +391,15 @@ def main(argv=None):
             else:
                 good = [m for m in mods + gen_mods if ok_mods[m]]
                 audit_res, audit_out = audit(prop, {"theorems": entry.get("theorems", []), "modules": good})
+            # non-vacuity witnesses: class-specific examples kept apart from the obligations — if one stops building
+            # the theorems still stand, so this is a note, not a broken obligation
+            for m in entry.get("witness_modules", []):
+                okw, outw = lake_build([m])
+                if okw:
+                    witness_ok.append(m)
+                else:
+                    errs_w = re.findall(r"error: [^\n]*", outw)
+                    witness_bad.append((m, "; ".join(errs_w[:3]) or "build failed"))
             if tier == "thorough" and all(ok_mods.values()):
                 r = subprocess.run(["lake", "env", "leanchecker"] + mods + gen_mods, cwd=LEAN, capture_output=True, text=True)
                 if r.returncode != 0:
@@ -416,6 +426,12 @@ def main(argv=None):
     # ---- E2 -----------------------------------------------------------------------
     ctx = Ctx(prop, tier, seed)
     ctx.proof_fail = proof_fail
+    if witness_ok:
+        ctx.notes.append({"non_vacuity_witness_modules_checked": witness_ok})
+    for m, why in witness_bad:
+        ctx.notes.append({"non_vacuity_witness_no_longer_checks": m, "why": why,
+                          "meaning": "a class-specific example of the theorems' hypotheses stopped building; the theorems are unaffected"})
+        log(f"note: witness module {m} does not build: {why}")
     sys.path.insert(0, REPO)
     infra = None
     try:
